@@ -148,6 +148,9 @@ FTok(lazy) == { <<Rule(<<Dl(".", FALSE), I("a", FALSE)>>, <<Decl(p[1], p[2])>>)>
                (* class names that already look prefixed (for every prefix of PrefixOpts): they are class names like any other *)
                <<Rule(<<Dl(".", FALSE), I("p--a", FALSE), Dl(".", TRUE), I("--b", FALSE), Dl(".", FALSE), I("~E~x--c", FALSE), Col(FALSE),
                         Fn("not", <<Dl(".", FALSE), I("p--p--d", FALSE), Com(FALSE), Dl(".", TRUE), I("p-e", FALSE), Dl(".", TRUE), I("p", FALSE)>>, FALSE)>>, Red)>>,
+               (* class names that need escapes in the source (utility-class spellings) *)
+               <<Rule(<<Dl(".", FALSE), I("sm:flex", FALSE), Dl(".", TRUE), I("10px", FALSE), Com(FALSE), Dl(".", TRUE), I("w-1/2", FALSE), Dl(".", FALSE), I("-1a", FALSE),
+                        Col(FALSE), Fn("is", <<Dl(".", FALSE), I("a.b", FALSE), Hs("i:d", TRUE)>>, FALSE)>>, <<Decl("width", <<Dim(3, "rpx", FALSE)>>)>>)>>,
                (* empty constructs *)
                <<Rule(<<Dl(".", FALSE), I("a", FALSE)>>, <<>>), Rule(<<Dl(".", FALSE), I("b", FALSE)>>, Red)>>,
                <<At("media", <<I("screen", TRUE)>>, "rules", <<>>), Rule(<<Dl(".", FALSE), I("b", FALSE)>>, Red)>>,
@@ -186,6 +189,13 @@ ImportPaths == {"a.wxss", "./a b", "../x/y.css", "a*/b", "q'r", "q\"r", "50%", "
 FImport(lazy) == { <<Import(f, p, l, s, m)>> : f \in {"string", "url"}, p \in ImportPaths, l \in {"none", "", "x"},
                                          s \in {<<>>, <<I("display", FALSE), Col(FALSE), I("grid", TRUE)>>},
                                          m \in {<<>>, <<I("screen", TRUE)>>, <<I("screen", TRUE), I("and", TRUE), Par(<<I("min-width", FALSE), Col(FALSE), Dim(3, "rpx", TRUE)>>, TRUE)>>} }
+           (* media query lists in their other shapes: the media type all, a list, only / not, a bare feature query *)
+           \cup { <<Import("string", "a", l, s, m)>> : l \in {"none", "x"}, s \in {<<>>, <<I("display", FALSE), Col(FALSE), I("grid", TRUE)>>},
+                     m \in { <<I("all", TRUE)>>, <<I("all", TRUE), I("and", TRUE), Par(<<I("min-width", FALSE), Col(FALSE), Dim(3, "px", TRUE)>>, TRUE)>>,
+                             <<I("all", TRUE), Com(FALSE), I("print", TRUE)>>, <<I("ALL", TRUE), I("and", TRUE), Par(<<I("color", FALSE)>>, TRUE)>>,
+                             <<I("only", TRUE), I("screen", TRUE)>>, <<I("not", TRUE), I("all", TRUE)>>,
+                             <<Par(<<I("min-width", FALSE), Col(FALSE), Dim(3, "rpx", TRUE)>>, TRUE)>>,
+                             <<I("print", TRUE), Com(FALSE), I("screen", TRUE), I("and", TRUE), Par(<<I("orientation", FALSE), Col(FALSE), I("landscape", TRUE)>>, TRUE)>> } }
            \cup { <<Ord("a"), Import("string", p, "none", <<>>, <<>>)>> : p \in ImportPaths }
            \cup { <<Import("STRING", p, l, <<>>, <<>>)>> : p \in {"a.wxss", "a%20b"}, l \in {"none", "x"} }      \* @IMPORT
            (* an import after block at-rules only (no style rule before it) is "after other rules" too *)
